@@ -1,6 +1,6 @@
 """Registry: property id -> level, rules, explanation.  MANIFEST.json is generated from it
 (checks/gen_manifest.py) so that the two cannot drift."""
-from .rules import py
+from .rules import py, c04, c06, c07, v3, c18, numrules, codec, crypto  # noqa: F401
 
 TRUSTED = [
     "rustc nightly 1.97 MIR construction (dev profile, -Zmir-opt-level=0) as a faithful account of the program",
@@ -95,7 +95,7 @@ prop("C10", "other",
      "privacy is configured (C10.priv); a failed decrypt never delivers and decrypt receives this message's data and USM "
      "(C10.dec). The first three mechanisms are absent from the code: they are recorded as known findings (a repair needs "
      "the raw datagram in unwrap_pdu and changes the SnmpSocket trait). MAC byte equality itself is not decided.",
-     [("C10", v3.c10)])
+     [("C10", v3.c10), ("C10.accept", c04.accept), ("C10.check", c04.pdu_check), ("C10.version", c04.version_check)])
 
 prop("C18", "other",
      "Mechanism premises only (wall-clock behaviour is NOT decided): get_socket arms SO_RCVTIMEO with "
@@ -104,7 +104,7 @@ prop("C18", "other",
      "call of the sync client maps that to TimeoutError; the async _recv wraps the whole retry loop in "
      "wait_for(self._timeout) and remaps the asyncio timeout; sync passes int(timeout*NS), async 0. The skip loop of "
      "_recv_inner tests no deadline (C18.deadline): recorded as a known finding.",
-     [("C18.arm", c18.arm), ("C18.deadline", c18.deadline), ("C18.map", py.blocking_wrapped), ("C18.py", py.timeouts)])
+     [("C18.arm", c18.arm), ("C18.deadline", c18.deadline), ("C18.map", py.blocking_wrapped), ("C18.py", py.timeouts), ("C18.recv-once", c18.recv_loops)])
 
 from .rules import numrules  # noqa: E402
 
@@ -183,7 +183,7 @@ prop("C15", "other",
      "shift site in SnmpInt::push_ber/decode, the OID conversions and push_tag_len (engine `num`); the length-form table of "
      "push_tag_len (short / 0x81 / 0x82 with the octets in order and ensure_size covering them); the fixed encodings (ZERO_BER, "
      "NULL_BER, EMPTY_BER, version constants) are minimal TLVs; PDU tag tables of encoder and decoder agree with RFC 3416.",
-     [("C15.nowrap", numrules.c15_nowrap), ("C15.len", codec.length_forms), ("C15.pdu", codec.pdu_tags), ("C15.oid", codec.oid_text)])
+     [("C15.nowrap", numrules.c15_nowrap), ("C15.len", codec.length_forms), ("C15.pdu", codec.pdu_tags), ("C15.oid", codec.oid_text), ("C15.nested", crypto.nested_lengths)])
 
 from .rules import crypto  # noqa: E402
 
@@ -225,7 +225,7 @@ prop("C03", "other",
      "undischarged panic site on the send path.",
      [("C03.fresh", crypto.fresh_buffers), ("C03.priv-fresh", crypto.priv_fresh), ("C03.op", crypto.op_tables), ("C03.pdu", codec.pdu_tags),
       ("C03.cred", v3.cred), ("C03.priv", v3.priv_choice), ("C03.reqid", c04.single_id), ("C03.len", codec.length_forms), ("C03.sib", crypto.sockets_sibling),
-      ("C03.keys", v3.keys), ("C03.fetch", py.fetch), ("C03.version", py_version_default), ("C03.nopanic", numrules.c03_nopanic)])
+      ("C03.keys", v3.keys), ("C03.fetch", py.fetch), ("C03.version", py_version_default), ("C03.nested", crypto.nested_lengths), ("C03.nopanic", numrules.c03_nopanic)])
 
 prop("C17", "proof",
      "Abstract interpretation (`num`): the type invariant pos <= MAX_SIZE of Buffer is assumed at every read of pos and proved at "
@@ -236,7 +236,7 @@ prop("C17", "proof",
      "only from the two decrypts (which fill the space before reading), as_slice(n) only from recv_socket with n = recv's result; "
      "no Result of a push is dropped; send only across push_pdu's Ok edge; OutOfBuffer -> SnmpEncodeError; length-form table.",
      [("C17.sites", numrules.c17_sites), ("C17.owner", crypto.buffer_owner), ("C17.err", crypto.buffer_err), ("C17.send", crypto.fresh_buffers),
-      ("C17.len", codec.length_forms), ("C17.exc", c07.exc_table), ("C17.priv-fresh", crypto.priv_fresh)])
+      ("C17.len", codec.length_forms), ("C17.exc", c07.exc_table), ("C17.priv-fresh", crypto.priv_fresh), ("C17.nested", crypto.nested_lengths)])
 
 prop("C09", "other",
      "HMAC byte equality is NOT decided. Decided: in v3 push_pdu sign runs on every Ok path of an authenticated session with no "
